@@ -501,6 +501,50 @@ func (g *semGen) fitBad(b []byte, t reflect.Type, ptr string) []byte {
 func (sc *SemErr) plan(t *core.Tape) *SemErrPlan {
 	p := &SemErrPlan{}
 	g := &semGen{mergeGen: mergeGen{s: t.S("type")}}
+	if bs := t.S("before"); bs.Chance(1, 4) {
+		// a member whose Go type cannot be unmarshalled into at all: the error is
+		// raised BEFORE the value is read; its offset must still be that of the
+		// value, also when the colon and whitespace in front of it straddle a refill
+		inner := g.typ(2)
+		bad := []reflect.Type{reflect.TypeFor[chan int](), reflect.TypeFor[func()](), reflect.TypeFor[complex128]()}[bs.Draw(3)]
+		p.typ = reflect.StructOf([]reflect.StructField{
+			{Name: "F0", Type: inner, Tag: `json:"f0"`},
+			{Name: "Bad", Type: bad, Tag: `json:"bad"`},
+			{Name: "F2", Type: reflect.TypeFor[int](), Tag: `json:"f2"`},
+		})
+		p.TypeStr = clipStr(p.typ.String(), 400)
+		g.s = t.S("text")
+		var b []byte
+		b = append(b, `{"f0":`...)
+		b = g.fit(b, inner, 2, false)
+		b = append(b, ',')
+		for i, n := 0, bs.Draw(40); i < n; i++ {
+			b = append(b, ' ')
+		}
+		b = append(b, `"bad"`...)
+		for i, n := 0, bs.Draw(8); i < n; i++ {
+			b = append(b, ' ')
+		}
+		b = append(b, ':')
+		for i, n := 0, []int{0, 1, 7, 30, 64, 100, 300}[bs.Draw(7)]; i < n; i++ {
+			b = append(b, " \n\t"[i%3])
+		}
+		p.Start = len(b)
+		b = append(b, []string{`1`, `"x"`, `[1,2,3]`, `{"a":null}`, `true`}[bs.Draw(5)]...)
+		p.End = len(b)
+		b = append(b, `,"f2":7}`...)
+		p.Text, p.Ptr, p.What = string(b), "/bad", "member of an unsupported Go type ("+bad.String()+")"
+		rs := t.S("reader")
+		switch rs.Weighted(2, 2, 3, 3) {
+		case 1:
+			p.Read.MaxChunk = 1
+		case 2:
+			p.Read.Cuts = []int{rs.Draw(len(b) + 1), rs.Draw(len(b) + 1)}
+		case 3:
+			p.Read.MaxChunk = 1 + rs.Draw(50)
+		}
+		return p
+	}
 	p.typ = g.typ(0)
 	p.TypeStr = clipStr(p.typ.String(), 400)
 	g.s = t.S("text")
